@@ -123,7 +123,7 @@ func loadEngine(dirs []string) (*engine, error) {
 		`^sort\.(SearchInts|SearchStrings)$`, `^\(\*?regexp\.`, `^regexp\.`, `^runtime\.`, `^fmt\.(Sprint|Sprintf|Sprintln|Errorf)$`,
 		`^\(expvar`, `^github\.com/influxdata/influxdb/models\.(Tag|NewTag)`, `^hash/`, `^\(\*?hash/`, `^github\.com/cespare/xxhash`, `^unsafe\.`,
 		`^\(github\.com/influxdata/influxql\.`, `^\(\*github\.com/influxdata/influxql\.[A-Za-z]+\)\.(String|RequiredPrivileges)$`,
-		`^\(error\)\.Error$`, `^\(\*github\.com/gogo/protobuf/proto\.`, `^github\.com/gogo/protobuf/proto\.(String|Uint64|Int64|Bool|Uint32|Int32|Float64)$`,
+		`^\(error\)\.Error$`, `^github\.com/influxdata/influxdb\.Err[A-Za-z]+$`, `^github\.com/influxdata/influxdb/logger\.`, `^\(\*github\.com/gogo/protobuf/proto\.`, `^github\.com/gogo/protobuf/proto\.(String|Uint64|Int64|Bool|Uint32|Int32|Float64)$`,
 		`^\(\*github\.com/influxdata/influxdb/[a-z/]*internal\.[A-Za-z]+\)\.Get[A-Z]`,
 	} {
 		e.pureRe = append(e.pureRe, regexp.MustCompile(p))
@@ -205,8 +205,37 @@ func (e *engine) callSites(f *ssa.Function) map[ssa.Instruction]string {
 	}
 	m := map[ssa.Instruction]string{}
 	cnt := map[string]int{}
+	// site ordinals follow SOURCE order (position of the call / send / select / map update), not the
+	// order of SSA blocks, so that "append#2" is the second append a reader sees
+	type ent struct {
+		in  ssa.Instruction
+		pos int
+		seq int
+	}
+	var ents []ent
+	seq := 0
 	for _, b := range f.Blocks {
 		for _, in := range b.Instrs {
+			switch in.(type) {
+			case *ssa.Call, *ssa.Defer, *ssa.Go, *ssa.Send, *ssa.Select, *ssa.MapUpdate:
+				p := int(in.Pos())
+				if !in.Pos().IsValid() {
+					p = 1 << 40
+				}
+				ents = append(ents, ent{in, p, seq})
+				seq++
+			}
+		}
+	}
+	sort.SliceStable(ents, func(i, j int) bool {
+		if ents[i].pos != ents[j].pos {
+			return ents[i].pos < ents[j].pos
+		}
+		return ents[i].seq < ents[j].seq
+	})
+	for _, e2 := range ents {
+		{
+			in := e2.in
 			var c *ssa.CallCommon
 			switch x := in.(type) {
 			case *ssa.Call:
